@@ -8,6 +8,7 @@ import (
 	"go/ast"
 	"go/token"
 	"go/types"
+	"strings"
 )
 
 type writeSet struct {
@@ -17,6 +18,7 @@ type writeSet struct {
 	trace  bool
 	pkgs   map[ast.Expr]*Pkg
 	chanOp bool
+	scanner bool
 }
 
 // collectWrites scans a loop body (and the bodies of closures it calls) for everything it may modify.
@@ -91,6 +93,13 @@ func (fx *Fx) collectWrites(nodes []ast.Node, st *State) *writeSet {
 				ws.chanOp = true
 			case *ast.CallExpr:
 				ws.calls = append(ws.calls, x)
+				if se, ok := ast.Unparen(x.Fun).(*ast.SelectorExpr); ok {
+					if sel, ok := fx.pkg.info.Selections[se]; ok && sel.Kind() == types.MethodVal {
+						if fn, ok := sel.Obj().(*types.Func); ok && strings.HasPrefix(fn.FullName(), "(*bufio.Scanner).") {
+							ws.scanner = true
+						}
+					}
+				}
 				// closure called by name: scan its body too
 				if id, ok := ast.Unparen(x.Fun).(*ast.Ident); ok {
 					if o := fx.pkg.info.ObjectOf(id); o != nil {
@@ -183,6 +192,10 @@ func (fx *Fx) havoc(st *State, ws *writeSet) {
 	}
 	if ws.chanOp {
 		fx.havocChans(st)
+	}
+	if ws.scanner {
+		fx.scannerCell(st, "nil")
+		st.heap["ghost_scanner"] = fx.d.freshConst("H_ghost_scanner", "(Array Ref "+scannerSort+")")
 	}
 }
 
@@ -336,10 +349,22 @@ func (fx *Fx) loopSpec(node ast.Node) (*LoopSpec, int) {
 	if !ok {
 		return nil, -1
 	}
-	if fx.spec == nil {
-		return nil, ord
+	var own *LoopSpec
+	if fx.spec != nil {
+		own = fx.spec.Loops[ord]
 	}
-	return fx.spec.Loops[ord], ord
+	// a loop of an inlined function: the function under verification may add invariants about its own state
+	if fx.inlineName != "" && fx.rootSpec != nil {
+		if extra := fx.rootSpec.InlLoops[fmt.Sprintf("%s.%d", fx.inlineName, ord)]; extra != nil {
+			merged := &LoopSpec{}
+			if own != nil {
+				merged.Invariants = append(merged.Invariants, own.Invariants...)
+			}
+			merged.Invariants = append(merged.Invariants, extra.Invariants...)
+			return merged, ord
+		}
+	}
+	return own, ord
 }
 
 func (fx *Fx) checkInvariants(st *State, ls *LoopSpec, ord int, kind string) {
